@@ -229,6 +229,20 @@ func (c *Ctx) scanModel() *scanInfo {
 					continue
 				}
 				li.Cell, li.Append = cell, st
+			} else if fc, ok := id.(fieldCell); ok {
+				// the result must be stored back into the same field
+				var st *ssa.Store
+				for _, r := range *call.Referrers() {
+					if s, ok := r.(*ssa.Store); ok {
+						if fa, ok := s.Addr.(*ssa.FieldAddr); ok && fa.X == ssa.Value(fc.Alloc) && fa.Field == fc.Field {
+							st = s
+						}
+					}
+				}
+				if st == nil {
+					continue
+				}
+				li.Append = st
 			} else if c.listID(call) != id {
 				continue
 			}
